@@ -8,19 +8,25 @@ import time
 
 sys.path.insert(0, os.path.dirname(os.path.abspath(__file__)))
 import vlib
-from engines import hs_server
+from engines import hs_server, hs_client
 
-# property -> (engine module, operator prefixes that decide it)
+# property -> list of (engine module, operator prefixes that decide it)
 PROPS = {
-    "C03": (hs_server, ["C03_", "X_NoPanic"]),
-    "C07": (hs_server, ["C07_", "X_NoPanic"]),
-    "C09": (hs_server, ["C09_"]),
-    "C10": (hs_server, ["C10_"]),
-    "C14": (hs_server, ["C14_"]),
-    "C06": (hs_server, ["C06_"]),
+    "C03": [(hs_server, ["C03_", "X_NoPanic"])],
+    "C07": [(hs_server, ["C07_", "X_NoPanic"])],
+    "C09": [(hs_server, ["C09_"]), (hs_client, ["C09_"])],
+    "C10": [(hs_server, ["C10_"])],
+    "C14": [(hs_server, ["C14_"])],
+    "C06": [(hs_server, ["C06_"]), (hs_client, ["C06_"])],
+    "C08": [(hs_client, ["C08_"])],
 }
 
 ASSUME = {
+    "hs-client": [
+        "TLC results hold inside the stated constants (raw-server alphabet of HsClient.tla, MaxIn, selector choices)",
+        "selector and authenticator callbacks return normally",
+        "TLC, CommunityModules Json, the Go runtime, crypto/tls and encoding/json are trusted",
+    ],
     "hs-server": [
         "TLC results hold inside the stated constants (raw-client alphabet of HsServer.tla, MaxRT, configuration lattice of HsServerMC.tla)",
         "callbacks return normally and honour their contract (never (nil, nil))",
@@ -45,48 +51,49 @@ def finding_matches(f, pid, b):
 
 def check(pid, tier):
     t0 = time.time()
-    eng, prefixes = PROPS[pid]
     with vlib.Scratch(pid) as scratch:
         drv = vlib.build_driver(scratch)
-        res = eng.run(tier, scratch, drv)
-        mine = [b for b in res["bad"] if any(b["op"].startswith(p) for p in prefixes)]
-        # a violation counts only if it reproduces on a second execution
-        confirmed = []
-        if mine:
-            ns = sorted({b["n"] for b in mine})[:200]
-            again = eng.run(tier, scratch, drv, only_cases=[b["case"] for b in mine if b["n"] in ns
-                                                            and b["n"] not in set()])
-            still = {(b["n"], b["op"]) for b in again["bad"]}
-            confirmed = [b for b in mine if (b["n"], b["op"]) in still]
-            if not confirmed:
-                raise vlib.Inconclusive("violations did not reproduce: %s" % [(b["n"], b["op"]) for b in mine][:5])
-        known, fresh = [], []
+        known, fresh, drift, assume = [], [], [], []
+        cov = {"states": 0, "transitions": 0, "traces_validated_against_impl": 0, "samples": [],
+               "exhaustive": True, "engines": [], "monitor_events": 0, "replay_equal_to_model_prediction": 0,
+               "deciding_operators": [], "checker_cmd": "./check %s %s" % (pid, tier)}
         kf = vlib.known_findings()
-        for b in confirmed:
-            hit = [f for f in kf if finding_matches(f, pid, b)]
-            (known if hit else fresh).append((b, hit[0] if hit else None))
-        drift = res.get("drift", [])
-        model = res.get("model", {})
-        cov = {
-            "states": max(1, model.get("states", 0)),
-            "transitions": max(1, model.get("transitions", 0)),
-            "traces_validated_against_impl": res["replay"]["cases"],
-            "samples": res["samples"],
-            "exhaustive": True,
-            "model_depth": model.get("depth"),
-            "model_invariants_checked_by_tlc": model.get("invariants_checked"),
-            "generated_behaviours_replayed": res["replay"]["cases"],
-            "replay_equal_to_model_prediction": res["replay"]["matched"],
-            "monitor_events": res["monitor"]["events"],
-            "drift_cases": len(drift),
-            "deciding_operators": prefixes,
-            "toggles": res.get("toggles"),
-            "known_findings_hit": len(known),
-            "checker_cmd": "./check %s %s" % (pid, tier),
-        }
-        vlib.write_evidence(pid, tier, cov, time.time() - t0, len(fresh), ASSUME[res["engine"]])
+        for eng, prefixes in PROPS[pid]:
+            res = eng.run(tier, scratch, drv)
+            mine = [b for b in res["bad"] if any(b["op"].startswith(p) for p in prefixes)]
+            # a violation counts only if it reproduces on a second execution
+            confirmed = []
+            if mine:
+                ns = sorted({b["n"] for b in mine})[:200]
+                again = eng.run(tier, scratch, drv, only_cases=[b["case"] for b in mine if b["n"] in ns])
+                still = {(b["n"], b["op"]) for b in again["bad"]}
+                confirmed = [b for b in mine if (b["n"], b["op"]) in still]
+                if not confirmed:
+                    raise vlib.Inconclusive("violations did not reproduce: %s" % [(b["n"], b["op"]) for b in mine][:5])
+            for b in confirmed:
+                b["engine"] = res["engine"]
+                hit = [f for f in kf if finding_matches(f, pid, b)]
+                (known if hit else fresh).append((b, hit[0] if hit else None))
+            drift += [dict(d, engine=res["engine"]) for d in res.get("drift", [])]
+            model = res.get("model", {})
+            cov["states"] += model.get("states", 0)
+            cov["transitions"] += model.get("transitions", 0)
+            cov["traces_validated_against_impl"] += res["replay"]["cases"]
+            cov["replay_equal_to_model_prediction"] += res["replay"]["matched"]
+            cov["monitor_events"] += res["monitor"]["events"]
+            cov["samples"] += res["samples"][:2]
+            cov["deciding_operators"] += [res["engine"] + ":" + p for p in prefixes]
+            cov["engines"].append({"engine": res["engine"], "model": {k: v for k, v in model.items()},
+                                   "replay": res["replay"], "monitor": res["monitor"],
+                                   "toggles": res.get("toggles")})
+            assume += [a for a in ASSUME[res["engine"]] if a not in assume]
+        cov["states"] = max(1, cov["states"])
+        cov["transitions"] = max(1, cov["transitions"])
+        cov["drift_cases"] = len(drift)
+        cov["known_findings_hit"] = len(known)
+        vlib.write_evidence(pid, tier, cov, time.time() - t0, len(fresh), assume)
         for d in drift[:10]:
-            print("DRIFT property=%s case=%s cfg=%s %s" % (pid, d["n"], json.dumps(d["cfg"]), d.get("note", "")))
+            print("DRIFT property=%s engine=%s case=%s cfg=%s %s" % (pid, d["engine"], d["n"], json.dumps(d["cfg"]), d.get("note", "")))
         seen = set()
         for b, f in known:
             if f["id"] not in seen:
@@ -95,19 +102,19 @@ def check(pid, tier):
         if fresh:
             shown = set()
             for b, _ in fresh:
-                key = b["op"]
+                key = (b["engine"], b["op"])
                 if key in shown:
                     continue
                 shown.add(key)
-                path = vlib.write_replay(pid, {"property": pid, "engine": res["engine"], "operator": b["op"],
+                path = vlib.write_replay(pid, {"property": pid, "engine": b["engine"], "operator": b["op"],
                                                "cfg": b["cfg"], "case": b["case"], "actual": b["actual"]})
                 print("VIOLATION property=%s replay=%s" % (pid, path))
                 print("  operator=%s cfg=%s (%d violating cases in total)" % (
                     b["op"], json.dumps(b["cfg"]), sum(1 for x, _ in fresh if x["op"] == b["op"])))
             return 1
         print("OK property=%s tier=%s cases=%d matched=%d drift=%d model_states=%s wall=%.1fs" % (
-            pid, tier, res["replay"]["cases"], res["replay"]["matched"], len(drift),
-            model.get("states"), time.time() - t0))
+            pid, tier, cov["traces_validated_against_impl"], cov["replay_equal_to_model_prediction"], len(drift),
+            cov["states"], time.time() - t0))
         return 0
 
 
@@ -115,7 +122,7 @@ def replay(path):
     with open(path) as f:
         rp = json.load(f)
     pid = rp["property"]
-    eng, prefixes = PROPS[pid]
+    eng, prefixes = [(e, p) for e, p in PROPS[pid] if e.__name__.endswith(rp["engine"].replace("-", "_"))][0]
     with vlib.Scratch("replay") as scratch:
         drv = vlib.build_driver(scratch)
         res = eng.run("quick", scratch, drv, only_cases=[rp["case"]])
